@@ -13,6 +13,7 @@
 #include <stdlib.h>
 #include <string.h>
 #include <time.h>
+#include <unistd.h>
 
 #include <nng/nng.h>
 
@@ -50,6 +51,8 @@ typedef struct {
 	uint32_t pipe;     // pipe id of a received message
 	int      msgkept;  // failed send: message still attached to the aio
 	int      id;
+	int      ncb;      // how often the callback ran (C02: exactly once per operation)
+	int      nomsg;    // the operation carries no message (dial)
 } op_t;
 static op_t ops[MAXOPS + 1];
 
@@ -84,6 +87,8 @@ rvname(int rv)
 	case NNG_ENOENT: return "enoent";
 	case NNG_EPROTO: return "eproto";
 	case NNG_EBUSY: return "ebusy";
+	case NNG_ECONNREFUSED: return "econnrefused";
+	case NNG_ECONNABORTED: return "econnaborted";
 	default: {
 		static char b[24];
 		snprintf(b, sizeof(b), "rv%d", rv);
@@ -212,6 +217,7 @@ op_cb(void *arg)
 	nng_msg *m;
 	op->rv   = nng_aio_result(op->aio);
 	op->done = 1;
+	op->ncb++;
 	m        = nng_aio_get_msg(op->aio);
 	if (op->issend) {
 		if (op->rv != 0) {
@@ -279,7 +285,7 @@ done_json(void)
 				if (op->rv == 0 && op->msgkept == 2) {
 					o(",\"msgkept\":true");
 				}
-			} else if (op->rv == 0) {
+			} else if (op->rv == 0 && !op->nomsg) {
 				o(",\"m\":%u", op->tag);
 				if (raw_mode) {
 					o(",\"hdr\":[");
@@ -430,6 +436,18 @@ role_of(const char *sym)
 	return u ? u + 1 : sym;
 }
 
+// C02: a user operation whose callback ran more than once (reported in every observation from then on)
+static void
+dupcb_json(void)
+{
+	for (int i = 1; i <= MAXOPS; i++) {
+		if (ops[i].used && ops[i].ncb > 1) {
+			o(",\"dupcb\":[%d,%d]", i, ops[i].ncb);
+			return;
+		}
+	}
+}
+
 static void
 obs_json(void)
 {
@@ -451,8 +469,10 @@ obs_json(void)
 				first = 0;
 			}
 		}
-		o("],\"lparked\":%s,\"dparked\":%s}", vt_parked_conns("sut") > 0 ? "true" : "false",
+		o("],\"lparked\":%s,\"dparked\":%s", vt_parked_conns("sut") > 0 ? "true" : "false",
 		    vt_parked_conns("dial") > 0 ? "true" : "false");
+		dupcb_json();
+		o("}");
 		return;
 	}
 	o("\"obs\":{");
@@ -487,6 +507,10 @@ obs_json(void)
 		}
 	}
 	o("]");
+	if (!sut_open && !dev_mode) {
+		// closed socket: no descriptors left to poll
+		o(",\"pollw\":false,\"pollr\":false");
+	}
 	if (sut_open && !dev_mode) {
 		if ((rv = nng_socket_get_send_poll_fd(sut, &fd)) == 0) {
 			struct pollfd pf = { fd, POLLIN, 0 };
@@ -499,6 +523,7 @@ obs_json(void)
 			o(",\"pollr\":%s", (pf.revents & POLLIN) ? "true" : "false");
 		}
 	}
+	dupcb_json();
 	o("}");
 }
 
@@ -628,6 +653,13 @@ main(int argc, char **argv)
 	p.max_task_threads   = 2;
 	p.num_expire_threads = 1;
 	p.max_expire_threads = 1;
+	if (getenv("DRV_LIFE_TRACE_DIR") != NULL) {
+		// life-cycle trace points of this process (validated against life/TraceLife.tla)
+		char tf[512];
+		snprintf(tf, sizeof(tf), "%s/drv-%d.ndjson", getenv("DRV_LIFE_TRACE_DIR"), (int) getpid());
+		setenv("NNG_VERIF_TRACE_SKIP", "aio,task", 1);
+		setenv("DRV_TRACE", tf, 1);
+	}
 	dee_init(0, 1, getenv("DRV_TRACE"));
 	if (nng_init(&p) != 0) {
 		return 3;
@@ -1010,12 +1042,23 @@ main(int argc, char **argv)
 			nng_pipe_notify(sut, NNG_PIPE_EV_ADD_PRE, pipe_event, NULL);
 			nng_pipe_notify(sut, NNG_PIPE_EV_ADD_POST, pipe_event, NULL);
 		} else if (!strcmp(cmd, "dial")) {
-			int rv = nng_dialer_create(&the_dialer, sut, "irc://dial");
-			if (rv == 0) {
-				nng_dialer_set_ms(the_dialer, NNG_OPT_RECONNMINT, 10);
-				nng_dialer_set_ms(the_dialer, NNG_OPT_RECONNMAXT, 10);
-				rv          = nng_dialer_start(the_dialer, NNG_FLAG_NONBLOCK);
-				have_dialer = 1;
+			// dial | dial aio0 <op> | dial aio <op>
+			int rv = 0;
+			if (!have_dialer) {
+				rv = nng_dialer_create(&the_dialer, sut, "irc://dial");
+				if (rv == 0) {
+					nng_dialer_set_ms(the_dialer, NNG_OPT_RECONNMINT, 10);
+					nng_dialer_set_ms(the_dialer, NNG_OPT_RECONNMAXT, 25);
+					have_dialer = 1;
+				}
+			}
+			if (rv == 0 && a1[0] == 'a') {
+				op_t *op  = new_op(atoi(a2), 0);
+				op->nomsg = 1;
+				nng_aio_set_timeout(op->aio, !strcmp(a1, "aio0") ? NNG_DURATION_ZERO : NNG_DURATION_INFINITE);
+				nng_dialer_start_aio(the_dialer, NNG_FLAG_NONBLOCK, op->aio);
+			} else if (rv == 0) {
+				rv = nng_dialer_start(the_dialer, NNG_FLAG_NONBLOCK);
 			}
 			settle();
 			o("\"out\":{\"rv\":\"%s\"},", rvname(rv));
